@@ -14,8 +14,8 @@
    (1e4dc27, c4fcf7f, ab776e6, 1799c30, 1298d8e, 1b618eb).  The model is parametrised by a record
    saying which repairs the modelled code contains: `cfg_now` is /repo as it stands (every repair),
    `cfg_snapshot` the historical snapshot and `cfg_round1` the tree after the first four repairs
-   (kept so that a regression has a name and a proved description).  One defect without a repair
-   flag remains: (a + b) + free-parameter sum is accepted silently (known finding). *)
+   (kept so that a regression has a name and a proved description).  One defect remains: (a + b) + free-parameter sum is accepted silently
+   (known finding; proposed repair = flag fix_free_right, contained in `cfg_fixed` only). *)
 From Coq Require Import ZArith List Bool Arith Lia.
 Import ListNotations.
 
@@ -25,12 +25,13 @@ Record cfg := mkCfg {
   fix_drain : bool;     (* AnalysisPool.results collects every result before raising        (ab776e6) *)
   fix_map   : bool;     (* AnalysisPool.map gives analysis i the folder analysis_i          (1799c30) *)
   fix_free_own : bool;  (* FreeParameterAnalysis.modify_model frees inside the analysis' own model (1298d8e) *)
-  fix_model_hooks : bool (* ModelAnalysis forwards save_attributes / save_results to the wrapped analysis (1b618eb) *)
+  fix_model_hooks : bool; (* ModelAnalysis forwards save_attributes / save_results to the wrapped analysis (1b618eb) *)
+  fix_free_right : bool  (* combined + FreeParameterAnalysis raises TypeError like the other three orders (proposed) *)
 }.
-Definition cfg_snapshot := mkCfg false false false false false false.
-Definition cfg_round1 := mkCfg true true true true false false.
-Definition cfg_now := mkCfg true true true true true true.
-Definition cfg_fixed := cfg_now.
+Definition cfg_snapshot := mkCfg false false false false false false false.
+Definition cfg_round1 := mkCfg true true true true false false false.
+Definition cfg_now := mkCfg true true true true true true false.
+Definition cfg_fixed := mkCfg true true true true true true true.
 
 (* ------------------------------------------------------------------------------------ *)
 (* A. the algebra of `+`                                                                 *)
@@ -81,6 +82,8 @@ Definition add (c : cfg) (a b : aval) : aval :=
       if fix_order c then construct c k (IPlain j h :: its)
       else construct c k (its ++ [IPlain j h])
   | VComb k its, VSingle j h => construct c k (its ++ [IPlain j h])
+  | VComb k its, VComb KFree its' =>         (* proposed repair: TypeError, as for the other three orders *)
+      if fix_free_right c then VErr else construct c k (its ++ its')
   | VComb k its, VComb _ its' => construct c k (its ++ its')
   end.
 
@@ -110,12 +113,11 @@ Definition spec_items (k : ckind) (l : list (nat * bool)) : list item :=
   match k with KPlain => plain_items l | _ => reindex_from 0 (plain_items l) end.
 (* sums without with_free_parameters inside; a finished sum with free parameters; anything that
    adds to a FreeParameterAnalysis (or frees a single analysis) must raise *)
-Definition spec_struct (e : expr) : aval :=
+Fixpoint spec_struct (e : expr) : aval :=
   match e with
   | Leaf j h => VSingle j h
   | Add _ _ => if nofree e then VComb (spec_kind (leaves e)) (spec_items (spec_kind (leaves e)) (leaves e)) else VErr
-  | Free (Add a b) => if nofree (Add a b) then VComb KFree (spec_items KFree (leaves (Add a b))) else VErr
-  | Free _ => VErr
+  | Free e' => match spec_struct e' with VComb _ its => VComb KFree (reindex_from 0 its) | _ => VErr end
   end.
 
 Definition is_leaf (e : expr) : bool := match e with Leaf _ _ => true | _ => false end.
